@@ -467,7 +467,11 @@ def r43(ctx, R, rule='R4.3'):
                        and x.func.attr == 'append'
                        and src(x.func.value) == lst]
             rets = [x for x in own_nodes(f.node) if isinstance(x, ast.Return)]
-            ok = bool(appends) and all(lst in src(r.value) for r in rets)
+            # the list is returned - itself, or as a field of the record
+            # that is returned
+            ok = bool(appends) and all(
+                lst in src(r.value) or lst.startswith(src(r.value) + '.')
+                for r in rets)
             why = 'cleanup list %s, %d appends' % (lst, len(appends))
             # the append is conditional only on the created flag
             for ap in appends:
